@@ -2,6 +2,7 @@
 LEVEL = "proof"
 RELEASE_TOO = True
 MODEL_FILES = ["Model/UnionFindM.v"]
+EXTRA_PROPS = ["C19b"]
 THEOREMS = ["C19_refines", "C19_outputs", "C19_equiv_iff_connected",
             "C19_compression_invisible", "C19_err_unchanged", "C19_labeling"]
 SCOPE = ("all call histories of new/new_set/find/find_mut/try_find/try_find_mut/equiv/try_equiv/union/"
